@@ -2,8 +2,8 @@
 //! Oracle: persistent segment model across runs (Appendix B) + name → content history monitor.
 
 use crate::ctl;
-use crate::family::{Kind, NamingK};
-use crate::flw::{self, AgeK, Clean, Crit, FlwCfg, FmtK, HOp, Hist, WMode};
+use crate::family::{self, Kind, NamingK};
+use crate::flw::{self, AgeK, Clean, Crit, Driver, FlwCfg, FmtK, HOp, Hist, WMode};
 use crate::util::{CaseCtx, CaseResult, Verdict, LEVELS};
 use chrono::Local;
 use serde_json::json;
@@ -20,7 +20,226 @@ fn fnv(b: &[u8]) -> u64 {
     h
 }
 
+// ------------------------------------------------------------------------------------------
+// Daylight-saving time: wall-clock times in the hour that is repeated when DST ends are ambiguous.
+// A child process in a DST zone runs a three-run history whose instants all lie in one pass of
+// the repeated hour, and the same history exactly 7 days later (unambiguous times, same zone):
+// restarts must treat the files alike (metamorphic oracle: same number of files, same records
+// per file, same kind of infix), whatever the time stamps in the names resolve to.
+
+const DST_ZONES: &[&str] = &["Europe/Berlin", "America/New_York", "Australia/Lord_Howe", "Pacific/Auckland"];
+
+/// the instant (UTC seconds) in `year` at which the local offset of this process's zone drops,
+/// and by how many seconds
+fn fall_back_transition(year: i32) -> Option<(i64, i64)> {
+    use chrono::TimeZone;
+    let start = chrono::Utc.with_ymd_and_hms(year, 1, 1, 0, 0, 0).single()?.timestamp();
+    let off = |t: i64| Local.timestamp_opt(t, 0).single().map(|d| i64::from(d.offset().local_minus_utc()));
+    let mut prev = off(start)?;
+    let mut t = start;
+    for _ in 0..366 * 48 {
+        let next = t + 1800;
+        let o = off(next)?;
+        if o < prev {
+            // refine to the second is not needed: transitions are on half-hour boundaries
+            return Some((next, prev - o));
+        }
+        prev = o;
+        t = next;
+    }
+    None
+}
+
+struct DstScenario {
+    naming: NamingK,
+    append: [bool; 3],
+    second_pass: bool,
+    suffix: Option<String>,
+    writes: [usize; 6],
+    trigger_in_run: [bool; 3],
+}
+
+fn gen_dst(rng: &mut crate::rng::Rng) -> DstScenario {
+    let naming = match rng.below(5) {
+        0 => NamingK::Timestamps,
+        1 | 2 => NamingK::TimestampsDirect,
+        3 => NamingK::Custom { fmt: "%Y%m%dT%H%M%S".into(), current: None },
+        _ => NamingK::Custom { fmt: "ts%Y-%m-%d_%H-%M-%S".into(), current: Some("CUR".into()) },
+    };
+    DstScenario {
+        naming,
+        append: [rng.chance(1, 2), rng.chance(2, 3), rng.chance(2, 3)],
+        second_pass: rng.chance(1, 2),
+        suffix: if rng.chance(1, 4) { None } else { Some("log".into()) },
+        writes: [1 + rng.usize(3), 1 + rng.usize(3), 1 + rng.usize(3), 1 + rng.usize(3), 1 + rng.usize(3), 1 + rng.usize(3)],
+        trigger_in_run: [true, rng.chance(1, 2), rng.chance(1, 3)],
+    }
+}
+
+/// one history; returns per family file (in the order of the independent family parser): (infix
+/// shape, record ids)
+fn dst_history(sc: &DstScenario, dir: &std::path::Path, instants: &[i64; 7]) -> Result<Vec<(String, Vec<u64>)>, String> {
+    let names = family::NameCfg {
+        dir: dir.to_path_buf(),
+        basename: "dst".into(),
+        discr: None,
+        start_ts: None,
+        suffix: sc.suffix.clone(),
+        naming: sc.naming.clone(),
+    };
+    let mut seq = 0u64;
+    for run in 0..3 {
+        let cfg = FlwCfg {
+            names: names.clone(),
+            use_ts: false,
+            crit: Some(Crit::Size(1_000_000)),
+            clean: Clean::Never,
+            clean_bg: false,
+            wmode: WMode::Direct,
+            crlf: false,
+            append: sc.append[run],
+            symlink: None,
+            use_utc: false,
+            max_level: log::LevelFilter::Trace,
+            fmt: FmtK::Raw,
+            l2: false,
+        };
+        // instants: [run0 start, run0 after trigger, run1 start, run1 after trigger, run2 start, run2 after trigger, unused]
+        ctl::clock_set(instants[2 * run] * 1_000_000_000);
+        let mut d = Driver::build(&cfg).map_err(|e| format!("run {run}: build failed: {e}"))?;
+        for _ in 0..sc.writes[2 * run] {
+            d.write(log::Level::Info, &flw::msg_id(0, 0, seq, 6));
+            seq += 1;
+        }
+        if sc.trigger_in_run[run] {
+            ctl::clock_set(instants[2 * run + 1] * 1_000_000_000);
+            d.rotate().map_err(|e| format!("run {run}: trigger_rotation failed: {e}"))?;
+            for _ in 0..sc.writes[2 * run + 1] {
+                d.write(log::Level::Info, &flw::msg_id(0, 0, seq, 6));
+                seq += 1;
+            }
+        }
+        d.shutdown();
+    }
+    let obs = family::observe(&names).map_err(|e| e.to_string())?;
+    if !obs.foreign.is_empty() {
+        return Err(format!("files outside the family: {:?}", obs.foreign));
+    }
+    let mut out = Vec::new();
+    for f in &obs.family {
+        let shape = match &f.entry.kind {
+            family::Kind::Current => "current".to_string(),
+            family::Kind::Ts(_, r) if *r >= 0 => format!("ts.restart-{r:04}"),
+            family::Kind::Ts(..) => "ts".to_string(),
+            k => format!("{k:?}"),
+        };
+        let content = f.content.clone().map_err(|e| e.to_string())?;
+        let ids: Vec<u64> = String::from_utf8_lossy(&content)
+            .lines()
+            .filter_map(|l| flw::parse_msg_id(l).map(|(_, _, s)| s))
+            .collect();
+        out.push((shape, ids));
+    }
+    Ok(out)
+}
+
+pub fn child_main(a: &crate::child::ChildArgs) -> i32 {
+    let mut ctx = crate::child::ctx_of(a);
+    let sc = gen_dst(&mut ctx.rng);
+    let Some((t, drop_s)) = fall_back_transition(2021) else {
+        println!("DST-INCONCLUSIVE no fall-back transition found in this zone");
+        return 0;
+    };
+    // all instants inside one pass of the repeated interval (length drop_s), 3 minutes apart
+    let step = (drop_s / 10).min(180);
+    let first = if sc.second_pass { t + step } else { t - drop_s + step };
+    let mut instants = [0i64; 7];
+    for (i, x) in instants.iter_mut().enumerate() {
+        *x = first + i as i64 * step;
+    }
+    let week = 7 * 86_400;
+    let shifted = instants.map(|x| x + week);
+    flw::install_virtual(instants[0] * 1_000_000_000);
+    let amb = dst_history(&sc, &a.dir.join("ambiguous"), &instants);
+    flw::uninstall_virtual();
+    flw::install_virtual(shifted[0] * 1_000_000_000);
+    let plain = dst_history(&sc, &a.dir.join("plain"), &shifted);
+    flw::uninstall_virtual();
+    let desc = format!(
+        "naming {}, append {:?}, {} pass of the repeated interval ({} s), triggers {:?}",
+        sc.naming.label(),
+        sc.append,
+        if sc.second_pass { "second" } else { "first" },
+        drop_s,
+        sc.trigger_in_run
+    );
+    match (amb, plain) {
+        (Ok(a1), Ok(p1)) => {
+            if a1 == p1 {
+                println!("DST-OK files={} {desc}", a1.len());
+            } else {
+                println!("DST-VIOLATION in the repeated interval the files are {a1:?}, one week later {p1:?}; {desc}");
+            }
+        }
+        (Err(e), Ok(_)) => println!("DST-VIOLATION in the repeated interval: {e} (fine one week later); {desc}"),
+        (Ok(_), Err(e)) => println!("DST-INCONCLUSIVE the reference week failed: {e}; {desc}"),
+        (Err(e), Err(e2)) => println!("DST-INCONCLUSIVE both failed: {e} / {e2}; {desc}"),
+    }
+    0
+}
+
+fn dst_case(ctx: &mut CaseCtx) -> CaseResult {
+    let zone = DST_ZONES[(ctx.case / 16) as usize % DST_ZONES.len()];
+    let mut res = CaseResult::new(format!("dst|{zone}"));
+    let out = match crate::child::spawn(&crate::child::Spawn {
+        ctx,
+        role: "dst",
+        extra: vec![],
+        env: vec![("TZ".into(), zone.into())],
+        timeout: std::time::Duration::from_secs(20),
+        tag: "dst",
+        cwd: None,
+        kill_after: None,
+    }) {
+        Ok(o) => o,
+        Err(e) => {
+            res.inconclusive(format!("cannot spawn child: {e}"));
+            return res;
+        }
+    };
+    let text = String::from_utf8_lossy(&out.stdout).to_string();
+    let line = text.lines().find(|l| l.starts_with("DST-")).unwrap_or("").to_string();
+    res.count("dst_children", 1);
+    if let Some(rest) = line.strip_prefix("DST-OK ") {
+        res.nontrivial = true;
+        res.add_to_set("dst_scenarios", rest.split(' ').skip(1).collect::<Vec<_>>().join(" "));
+        res.count("dst_histories_compared", 1);
+    } else if let Some(rest) = line.strip_prefix("DST-VIOLATION ") {
+        res.nontrivial = true;
+        res.violate(
+            "dst-ambiguous-local-time",
+            format!("C06/dst-repeated-hour-differs/{zone}"),
+            format!("TZ={zone}: {rest}"),
+        );
+    } else {
+        res.inconclusive(format!(
+            "DST child: {} / {}; stdout {:?}; stderr {:?}",
+            out.describe(),
+            line,
+            text.chars().take(200).collect::<String>(),
+            String::from_utf8_lossy(&out.stderr).chars().take(300).collect::<String>()
+        ));
+    }
+    if ctx.case < 64 || res.verdict != Verdict::Held {
+        res.sample = Some(json!({"zone": zone, "child_says": line}));
+    }
+    res
+}
+
 pub fn run_case(ctx: &mut CaseCtx) -> CaseResult {
+    if ctx.case % 16 == 9 {
+        return dst_case(ctx);
+    }
     let rng = &mut ctx.rng;
     let rotation = !rng.chance(1, 8);
     let naming = if rotation {
